@@ -63,7 +63,7 @@ def run(res, replay=None):
                 continue
             inputs.append(inp)
     data = geo.geo_data(tier, seed, inputs=inputs, name="c14", opts=1 | 2 | 8, flags=2 | 4 | 8)
-    wd = os.path.join(C.CACHE, "run", "c14")
+    wd = C.rundir("c14")
     cf = os.path.join(wd, "down.cases")
     with open(cf, "w") as f:
         for inp in inputs:
